@@ -753,3 +753,88 @@ Definition run3 (o : op3) (a b c : val) : res val := only (run3s o a b c []).
 (* SEVM.arith: constraints appended to the path next to a symbolic DIV / MOD result *)
 Definition arith_axioms (sebc : Z) (o : op) (a b : val) : list bterm :=
   match run2s sebc o a b [] with Ok s => pth s | Err _ => [] end.
+
+(* ------------------------------------------------------------------ HalmosBool(<value>) and the TRUE / FALSE singletons *)
+(* Python runs HalmosBool.__new__(cls, value) and then, because the object returned is a HalmosBool,
+   HalmosBool.__init__(<that object>, value) - also when __new__ returned the TRUE / FALSE singleton
+   (python bool, BoolRef that simplifies to a literal, TRUE / FALSE passed through).  The heap holds
+   the fields of the two singletons, of the freshly allocated object and of one other HalmosBool.
+   [guard] = hb_init_guards_singletons (Gen/GenBitvecGuards.v): __init__ starts with
+   `if self is TRUE or self is FALSE: return`.  [simp] is z3's simplify. *)
+Inductive oref := RTrue | RFalse | RNew | ROther.
+Record obj := { o_con : option bool; o_sym : option bterm }.
+Record heap := { hT : obj; hF : obj; hN : obj; hO : obj }.
+Inductive hb_arg :=
+| ABool (b : bool)               (* python bool *)
+| ATerm (c : bterm)              (* z3 BoolRef *)
+| AStr (id : Z)                  (* str: Bool(name) *)
+| AObj (r : oref)                (* an existing HalmosBool *)
+| ABitVec (n : Z) (x : bv).      (* HalmosBitVec of size n: value.is_non_zero() *)
+
+Definition obj_true : obj := {| o_con := Some true; o_sym := None |}.
+Definition obj_false : obj := {| o_con := Some false; o_sym := None |}.
+Definition hget (h : heap) (r : oref) : obj :=
+  match r with RTrue => hT h | RFalse => hF h | RNew => hN h | ROther => hO h end.
+Definition hset (h : heap) (r : oref) (o : obj) : heap :=
+  match r with
+  | RTrue => {| hT := o; hF := hF h; hN := hN h; hO := hO h |}
+  | RFalse => {| hT := hT h; hF := o; hN := hN h; hO := hO h |}
+  | RNew => {| hT := hT h; hF := hF h; hN := o; hO := hO h |}
+  | ROther => {| hT := hT h; hF := hF h; hN := hN h; hO := o |}
+  end.
+Definition is_singleton (r : oref) : bool := match r with RTrue | RFalse => true | _ => false end.
+
+Section HalmosBoolCtor.
+  Variable simp : bterm -> bterm.
+  Variable guard : bool.
+
+  (* __new__ for every value but a HalmosBitVec *)
+  Definition hb_new (a : hb_arg) : oref :=
+    match a with
+    | ABool b => if b then RTrue else RFalse
+    | AObj r => r
+    | ATerm c => match simp c with BConst true => RTrue | BConst false => RFalse | _ => RNew end
+    | AStr _ | ABitVec _ _ => RNew
+    end.
+
+  (* __init__(self, value); the two asserts at its end hold by construction of the three stores *)
+  Definition hb_init (self : oref) (a : hb_arg) (h : heap) : heap :=
+    if guard && is_singleton self then h
+    else match a with
+         | ABool b => hset h self {| o_con := Some b; o_sym := None |}
+         | ATerm c => hset h self {| o_con := None; o_sym := Some (simp c) |}
+         | AStr id => hset h self {| o_con := None; o_sym := Some (BVar id) |}
+         | AObj _ | ABitVec _ _ => h
+         end.
+
+  (* HalmosBool(value): the object and the heap afterwards *)
+  Definition hb_ctor (a : hb_arg) (h : heap) : oref * heap :=
+    match a with
+    | ABitVec n x =>
+        (* __new__ returns value.is_non_zero() = HalmosBool(self._value != 0): a complete inner
+           construction; then the outer __init__ runs on its result with the HalmosBitVec as value *)
+        let inner := match x with
+                     | Cv v => ABool (negb (v =? 0))
+                     | Sv t => ATerm (BNot (BEq t (TConst n 0)))
+                     end in
+        let r := hb_new inner in
+        (r, hb_init r a (hb_init r inner h))
+    | _ => let r := hb_new a in (r, hb_init r a h)
+    end.
+End HalmosBoolCtor.
+
+Definition singles_ok (h : heap) : Prop := hT h = obj_true /\ hF h = obj_false.
+Definition obj_den ev eb (o : obj) : option bool :=
+  match o_con o, o_sym o with
+  | Some b, None => Some b
+  | None, Some c => Some (beval ev eb c)
+  | _, _ => None                               (* neither / both: bool() and as_z3() misbehave *)
+  end.
+Definition arg_den ev eb (h : heap) (a : hb_arg) : option bool :=
+  match a with
+  | ABool b => Some b
+  | ATerm c => Some (beval ev eb c)
+  | AStr id => Some (eb id)
+  | AObj r => obj_den ev eb (hget h r)
+  | ABitVec n x => Some (negb (bv_den ev eb x =? 0))
+  end.
